@@ -122,6 +122,8 @@ pub mod async_fs {
         #[verifier::external_body]
         fn write_all(&mut self, buf: &[u8]) -> (r: Result<(), std::io::Error>) { unimplemented!() }
         #[verifier::external_body]
+        fn write(&mut self, buf: &[u8]) -> (r: Result<usize, std::io::Error>) { unimplemented!() }
+        #[verifier::external_body]
         fn flush(&mut self) -> (r: Result<(), std::io::Error>) { unimplemented!() }
         #[verifier::external_body]
         fn close(&mut self) -> (r: Result<(), std::io::Error>) { unimplemented!() }
